@@ -277,11 +277,12 @@ def sym_np():
 
         @staticmethod
         def arange(*a, **kw):
-            return np.array([sp.Integer(int(x)) if float(x) == int(x) else sp.nsimplify(float(x), rational=True) for x in np.arange(*a)], dtype=object)
+            # native integers / floats: usable as index vectors; arithmetic with symbols turns them into object arrays
+            return np.arange(*a)
 
         @staticmethod
         def reciprocal(a):
-            return np.array([1 / sp.sympify(x) for x in a.flat], dtype=object).reshape(a.shape)
+            return np.array([1 / sp.nsimplify(x, rational=True) for x in np.asarray(a).flat], dtype=object).reshape(np.shape(a))
 
         @staticmethod
         def diag(v, k=0):
@@ -314,6 +315,12 @@ def sym_call(repo, fname, *args):
         return it.call_fn(fn, list(args), {})
     except Fork:
         raise AnalysisError(f'{fname} could not be interpreted over symbols: undecidable test {it.fork_log[-1]}')
+    except Raised as r:
+        if getattr(r, 'native', False) and (r.exc_type in ('TypeError', 'AttributeError') or 'must be of integer' in r.message or 'object' in r.message):
+            # real NumPy working on object arrays of expressions can fail for dtype reasons where it would not fail on numbers: no verdict
+            # (shape / broadcasting errors are the same for object arrays and are kept as the program's own errors)
+            raise AnalysisError(f'{fname}: a library call failed in the symbolic domain ({r.exc_type}: {r.message}) at {r.where}')
+        raise
 
 
 def small(e, tol=1e-12):
